@@ -63,7 +63,20 @@ pub fn generate(tier: &str, rng: &mut Rng) -> Vec<String> {
     // compressible messages, the limit between their compressed and uncompressed size (seed C01g)
     for i in 0..(if thorough { 300 } else { 12 }) {
         let e = [tonic::codec::CompressionEncoding::Gzip, tonic::codec::CompressionEncoding::Deflate, tonic::codec::CompressionEncoding::Zstd][i % 3];
-        out.push(gen_dec_compressible(rng, e, i < 3 && (thorough || i == 0)).line());
+        let mut c = gen_dec_compressible(rng, e, i < 3 && (thorough || i == 0));
+        if c.max.is_some() {
+            // C01 is about VALID streams: the limit admits every frame on the wire (and is still far below the
+            // uncompressed size of the compressible messages)
+            let mut b = &c.stream[..];
+            let mut longest = 0usize;
+            while b.len() >= 5 {
+                let l = u32::from_be_bytes([b[1], b[2], b[3], b[4]]) as usize;
+                longest = longest.max(l);
+                b = &b[(5 + l).min(b.len())..];
+            }
+            c.max = Some(longest);
+        }
+        out.push(c.line());
     }
     // one frame above 64 KiB with more frames behind it in the same chunk (seed C07f)
     for _ in 0..(if thorough { 400 } else { 40 }) {
